@@ -39,6 +39,7 @@ def generic_write_case(draw, max_len=14, mode=None, phys=None):
         "params": {"generalized": True, "rdf_star": True, "stream_name": draw(gen.stream_names)},
         "statements": stmts,
         "reader": draw(st.sampled_from(["flat", "flat", "to_graph", "sink_parse"])),
+        "options_history": draw(st.sampled_from([None, None, None, "abandoned"])),
     }
     if entry in ("sink_serialize", "flat_to_file_default", "grouped_to_file_default"):
         case["preset"] = [4000, 150, 32]
@@ -184,6 +185,7 @@ def rdflib_write_case(draw, max_len=14, phys=None):
         # the rdflib objects handed over are sometimes equal-but-not-identical copies of what a fresh build gives
         # (a Dataset that went through pickle / deepcopy, terms rebuilt from strings): identity must not matter
         "object_copy": draw(st.sampled_from([None, None, "pickle", "deepcopy"])),
+        "options_history": draw(st.sampled_from([None, None, None, "abandoned"])),
         "logical": logical,
         "delimited": delimited,
         "frame_size": draw(gen.frame_sizes),
@@ -219,15 +221,32 @@ def rdflib_container(stmts, phys, bindings=None, empty_graphs=()):
 
 
 def _copied(obj, how):
+    """An equal-but-not-identical copy of an rdflib container. Precondition: the copy holds the same statements (rdflib's
+    pickling re-normalises literals, which can change - and even desynchronise - what the store holds; then the
+    original is used)."""
+    if how not in ("pickle", "deepcopy"):
+        return obj
     if how == "pickle":
         import pickle
 
-        return pickle.loads(pickle.dumps(obj))
-    if how == "deepcopy":
+        c = pickle.loads(pickle.dumps(obj))
+    else:
         import copy
 
-        return copy.deepcopy(obj)
-    return obj
+        c = copy.deepcopy(obj)
+
+    def content(x):
+        import rdflib
+
+        if isinstance(x, rdflib.Dataset):
+            via_quads = {repr(T.norm_stmt(s)) for s in pyj.sink_events(x, "rdflib")}
+            via_graphs = {repr(T.norm_stmt([T.from_rdflib(a), T.from_rdflib(b), T.from_rdflib(c_), T.from_rdflib(g.identifier, graph_pos=True)]))
+                          for g in x.graphs() for a, b, c_ in g}
+            return via_quads if via_quads == via_graphs else None
+        return {repr(T.norm_stmt(s)) for s in pyj.sink_events(x, "rdflib")}
+
+    a, b = content(obj), content(c)
+    return c if a is not None and a == b else obj
 
 
 def write_rdflib(case):
